@@ -424,7 +424,9 @@ func (f *Filter) setFilterValue(strVal string) (err error) {
 			return errors.New("custom variable filter must have form \"Filter: custom_variables <op> <variable> [<value>]\"")
 		}
 		if len(vars) == 1 {
+			// no value given: compare the variable with the empty string, not with its own name
 			f.isEmpty = true
+			f.stringVal = ""
 		} else {
 			f.stringVal = vars[1]
 		}
